@@ -271,8 +271,8 @@ def convert_variable_case(seed):
     for dirn in (M.DataDirectionFlow.OUTPUT, M.DataDirectionFlow.INPUT):
         try:
             got = m.convert_variable(back, alt, dirn)
-            bad.append(('convert_variable(%s) against the direction of the only registered rule (%s -> %s) succeeded and returned %s'
-                        % (dirn, dalt, alt, got.name), {'seed': seed}))
+            return bad + [('convert_variable(%s) against the direction of the only registered rule (%s -> %s) succeeded and '
+                           'returned %s' % (dirn, dalt, alt, got.name), {'seed': seed})]
         except Exception as e:
             if vlib.err_class(e) != 'pint:DimensionalityError':
                 bad.append(('convert_variable against the direction of the only registered rule raised %r, not a dimensionality '
